@@ -4,33 +4,28 @@ From Coq Require Import Lia.
 From IV Require Import Base.Bytes Model.Lifecycle Model.LifecycleAccept Proofs.Lifecycle.
 Local Open Scope nat_scope.
 
-(** Invariant: the session counts are exact, a held connection implies a running loop, and a
-    stopped loop implies a closed listener (or one that was never bound). *)
+(** Invariant: the session counts are exact and a held connection implies a running loop. *)
 Record Inv2 (y : sys2) : Prop := mkInv2 {
   i2_counted : counted (base y);
-  i2_pend : pend y <> None -> serving y = true;
-  i2_stopped : serving y = false -> lopen (sv (base y)) = false
+  i2_pend : pend y <> None -> serving y = true
 }.
 
 Lemma inv2_step y a y' : Inv2 y -> step2 y a = Some y' -> Inv2 y'.
 Proof.
-  intros [C P S] E. destruct a as [i| | |a]; cbn [step2] in E.
+  intros [C P] E. destruct a as [i| | | |a]; cbn [step2] in E.
   - destruct (pend y); [discriminate|]. destruct (find_s i (ss (sv (base y)))); [discriminate|].
     destruct (serving y && lopen (sv (base y))) eqn:G; [|discriminate]. inversion E; subst y'.
-    apply Bool.andb_true_iff in G. destruct G as [G1 G2].
-    constructor; cbn [base serving pend]; auto; discriminate.
+    constructor; cbn [base serving pend]; auto.
   - destruct (pend y) as [i|] eqn:Py; [|discriminate]. inversion E; subst y'; clear E.
     constructor; cbn [base serving pend sv lopen].
     + unfold counted in *. cbn [sv wg pr ss]. rewrite total_app. cbn. lia.
     + congruence.
-    + intros F. rewrite P in F; [discriminate|congruence].
-  - destruct (pend y); [discriminate|]. destruct (serving y && negb (lopen (sv (base y)))) eqn:G; [|discriminate].
-    inversion E; subst y'. apply Bool.andb_true_iff in G. destruct G as [_ G]. apply Bool.negb_true_iff in G.
-    constructor; cbn [base serving pend]; auto; congruence.
+  - destruct (pend y); [discriminate|]. destruct (serving y && negb (lopen (sv (base y)))); [|discriminate].
+    inversion E; subst y'. constructor; cbn [base serving pend]; auto; congruence.
+  - destruct (pend y); [discriminate|]. destruct (serving y); [|discriminate].
+    inversion E; subst y'. constructor; cbn [base serving pend]; auto; congruence.
   - destruct (is_accept a) eqn:IA; [discriminate|]. destruct (step (base y) a) as [b|] eqn:St; [|discriminate].
-    inversion E; subst y'. constructor; cbn [base serving pend]; auto.
-    + eapply counted_step; eauto.
-    + intros F. specialize (S F). destruct (closed_stays [a] (base y) b S) as [L _]; auto. cbn [run]. rewrite St. reflexivity.
+    inversion E; subst y'. constructor; cbn [base serving pend]; auto. eapply counted_step; eauto.
 Qed.
 
 Lemma inv2_run acts : forall y y', Inv2 y -> run2 y acts = Some y' -> Inv2 y'.
@@ -45,7 +40,6 @@ Proof.
   constructor; cbn.
   - reflexivity.
   - congruence.
-  - auto.
 Qed.
 
 (** [drain_exact], full statement, for both servers as coded now, whether or not the listener
@@ -57,7 +51,7 @@ Theorem drain_exact_accept_loop :
      (serving y = false /\ forall i s, In (i, s) (ss (sv (base y))) -> alive s = false)) /\
     (drain_returns2 y = true -> pend y = None /\ forall i, step2 y (AcceptRet i) = None).
 Proof.
-  intros p b acts y R. pose proof (inv2_run acts _ _ (inv2_init p b) R) as [C P S].
+  intros p b acts y R. pose proof (inv2_run acts _ _ (inv2_init p b) R) as [C P].
   assert (E : drain_returns2 y = true <->
               (serving y = false /\ forall i s, In (i, s) (ss (sv (base y))) -> alive s = false)).
   { unfold drain_returns2, wg2. rewrite Nat.eqb_eq, C. rewrite <- (total_zero (pr (sv (base y)))).
@@ -77,11 +71,12 @@ Proof.
   - inversion R; subst. auto.
   - destruct (step2 y a) as [y1|] eqn:E; [|discriminate].
     assert (X : drain_returns2 y1 = true /\ ss (sv (base y1)) = ss (sv (base y))).
-    { destruct I as [C P S]. unfold drain_returns2, wg2 in D. apply Nat.eqb_eq in D.
+    { destruct I as [C P]. unfold drain_returns2, wg2 in D. apply Nat.eqb_eq in D.
       destruct (serving y) eqn:Sv; [lia|]. assert (W : wg (sv (base y)) = 0) by lia.
       assert (Pn : pend y = None). { destruct (pend y) eqn:Py; auto. exfalso. assert (Q : Some n <> None) by discriminate. specialize (P Q). congruence. }
-      destruct a as [i| | |a]; cbn [step2] in E; rewrite ?Pn, ?Sv in E; cbn [andb] in E.
+      destruct a as [i| | | |a]; cbn [step2] in E; rewrite ?Pn, ?Sv in E; cbn [andb] in E.
       - destruct (find_s i (ss (sv (base y)))); discriminate.
+      - discriminate.
       - discriminate.
       - discriminate.
       - destruct (is_accept a) eqn:IA; [discriminate|]. destruct (step (base y) a) as [b|] eqn:St; [|discriminate].
@@ -137,7 +132,7 @@ Theorem session_counts_exact :
   forall p b acts y, run2 (sys2_init p b) acts = Some y ->
     (wg (sv (base y)) = O <-> forall i s, In (i, s) (ss (sv (base y))) -> alive s = false).
 Proof.
-  intros p b acts y R. pose proof (inv2_run acts _ _ (inv2_init p b) R) as [C _ _].
+  intros p b acts y R. pose proof (inv2_run acts _ _ (inv2_init p b) R) as [C _].
   rewrite C. apply total_zero.
 Qed.
 
@@ -151,3 +146,40 @@ Proof.
   - rewrite Nat.add_0_r. reflexivity.
   - apply Nat.eqb_neq. lia.
 Qed.
+
+
+(** * A permanent Accept error (e.g. EMFILE) *)
+
+(** The accept loop reports the error on Notify and exits, releasing its own count; the listener
+    stays open and Start stays parked on the context. Nothing else changes: every session is where
+    it was, and so is the sessions' part of the counter … *)
+Theorem accept_failure_leaves_sessions :
+  forall y y', step2 y ServeFail = Some y' ->
+    base y' = base y /\ serving y' = false /\ pend y' = None /\ forall i, step2 y' (AcceptRet i) = None.
+Proof.
+  intros y y' E. cbn [step2] in E. destruct (pend y); [discriminate|]. destruct (serving y); [|discriminate].
+  inversion E; subst y'. repeat split. intros i. cbn [step2 pend serving]. destruct (find_s _ _); reflexivity.
+Qed.
+
+(** … so from then on Drain is exactly "no accepted session is alive" (the coarse statement), the
+    open sessions can still complete ([open_session_unaffected], [inflight_completes] speak about
+    [base], which is untouched), and shutdown is requested and served as usual. *)
+Theorem drain_after_accept_failure :
+  forall p b acts y y', run2 (sys2_init p b) acts = Some y -> step2 y ServeFail = Some y' ->
+    (drain_returns2 y' = true <-> forall i s, In (i, s) (ss (sv (base y'))) -> alive s = false).
+Proof.
+  intros p b acts y y' R E.
+  assert (R' : run2 (sys2_init p b) (acts ++ [ServeFail]) = Some y').
+  { clear - R E. revert R. generalize (sys2_init p b). induction acts as [|a t IH]; intros y0 R; cbn [run2 app] in *.
+    - inversion R; subst. rewrite E. reflexivity.
+    - destruct (step2 y0 a); [|discriminate]. apply IH. exact R. }
+  destruct (drain_exact_accept_loop p b _ y' R') as [D _]. rewrite D.
+  destruct (accept_failure_leaves_sessions y y' E) as (_ & S & _). rewrite S. tauto.
+Qed.
+
+Lemma accept_failure_demo :
+  exists y, run2 (sys2_init PSmtp true)
+      [AcceptRet 1; AddWg; Other (Begin 1); Other (Client 1 SData); ServeFail; Other Cancel; Other LClose;
+       Other (Quit 1); Other (Exit 1)] = Some y /\
+    drain_returns2 y = true /\ find_s 1 (ss (sv (base y))) = Some (mkS Ended 1 1 false false).
+Proof. eexists. split; [vm_compute; reflexivity|]. split; vm_compute; reflexivity. Qed.
